@@ -135,9 +135,14 @@ class VonMisesFisherTrainer:
 
         # [Banerjee2005vMF] Equation 2.5
         r_bar = norm / np.sum(saliency, axis=-1)
+        # The mean resultant length is at most one. Rounding can exceed it
+        # (e.g. a class with a single observation), then the estimate below
+        # would change its sign and be clipped to the minimum concentration.
+        r_bar = np.minimum(r_bar, 1)
 
         # [Banerjee2005vMF] Equation 4.4
-        concentration = (r_bar * D - r_bar ** 3) / (1 - r_bar ** 2)
+        with np.errstate(divide='ignore'):
+            concentration = (r_bar * D - r_bar ** 3) / (1 - r_bar ** 2)
         concentration = np.clip(
             concentration, min_concentration, max_concentration
         )
